@@ -38,6 +38,10 @@ class SectionOutput(Output):
         ):
             return
 
+        if not self._may_write(None):
+            # Nothing would be written: what is on the screen must stay on record
+            return
+
         if lines:
             # Multiply lines by 2 to cater for each new line added between content
             removed = self._content[-(lines * 2) :]
